@@ -11,6 +11,7 @@ import numpy as np
 from harness.common import Check, Model, build, finish, rng, VERIF, hexs
 from harness import filegen, eflr
 from harness.impl import call, sw, RC
+from dliswriter import DLISFile as DLISFileCls
 
 THEOREMS = ['Dlis.C14.history_independent', 'Dlis.C14.cachedWrite_transparent', 'Dlis.C14.pyEq_eq',
             'Dlis.C14.evict_coherent', 'Dlis.C14.signed_zero_collides', 'Dlis.C14.types_never_collide',
@@ -82,8 +83,16 @@ def run(tier):
             target['write'].update({'data_kind': 'inline', 'from_idx': 0, 'to_idx': None})
             stf, fresh = fresh_write(target, tmp, 'fresh')
             for k in range(R.choice([1, 2, 4])):
-                noise = filegen.gen_spec(R, small=True)
+                noise = filegen.gen_spec(R, small=True, hc=(R.random() < 0.2))
                 filegen.write(noise, tmp, fname='noise.dlis')
+                if R.random() < 0.4:
+                    # a build in high-compatibility mode that is refused inside the context (the exception leaves it)
+                    from dliswriter import high_compatibility_mode
+
+                    def refused():
+                        with high_compatibility_mode():
+                            DLISFileCls(set_identifier='not allowed in the mode')
+                    call(refused)
             r1 = filegen.write(target, tmp, fname='t1.dlis')
             case = {'index': i, 'spec': filegen.describe(target)}
             chk.case('after-other-files', nontrivial_key=('b', i), sample={'index': i, 'status': r1['status'], 'fresh': stf})
@@ -106,6 +115,50 @@ def run(tier):
                     chk.fail('rewrite:second-write-raises', case, f'writing the same DLISFile a second time raises {e2}')
                 elif d1 != d2:
                     chk.fail('rewrite:second-write-differs', case, 'the second write of the same DLISFile gives different bytes')
+        # (b2) data handed to one write must not be remembered for the next: a later write without that data, or from
+        # another kind of source, behaves as it does on a fresh specification
+        for i in range(20 if tier == 'quick' else 200):
+            spec = filegen.gen_spec(R, n_lf=1, small=True, with_index=False, rows=R.choice([2, 3]))
+            for lf in spec['lfs']:
+                for o in lf['objects']:
+                    if o['kind'] == 'channel':
+                        o['cast_dtype'] = None
+                        if o.get('dataset_name') and o['dataset_name'].startswith('/'):
+                            o['dataset_name'] = o['dataset_name'].strip('/').replace('/', '_')
+            spec['write'].update({'data_kind': 'dict', 'from_idx': 0, 'to_idx': None, 'input_chunk_size': None})
+            spec['object_routes'] = False
+            st0, b = call(filegen.build, spec)
+            if st0 != 'ok':
+                continue
+            p = os.path.join(tmp, 'md.dlis')
+            s1, e1 = call(b.df.write, p, data=dict(b.data), output_chunk_size=2**20)
+            if s1 != 'ok':
+                continue
+            first = open(p, 'rb').read()
+            follow = R.choice(['no-data', 'struct', 'hdf5', 'partial-dict'])
+            case = {'index': i, 'spec': filegen.describe(spec), 'first_write': 'write(data=<dict of all datasets>)',
+                    'second_write': follow, 'same_DLISFile_object': True}
+            chk.case('data-not-remembered', nontrivial_key=('md', i), sample={'index': i, 'second': follow})
+            if follow == 'no-data':
+                s2, e2 = call(b.df.write, p, output_chunk_size=2**20)
+                if s2 == 'ok':
+                    chk.fail('history:write-data-remembered', case, 'a write without data succeeds after a write that was given '
+                                                                    'the data; a fresh specification refuses it')
+            elif follow == 'partial-dict':
+                d = dict(b.data)
+                del d[sorted(d)[-1]]
+                s2, e2 = call(b.df.write, p, data=d, output_chunk_size=2**20)
+                if s2 == 'ok':
+                    chk.fail('history:write-data-remembered', case, 'a write lacking one dataset succeeds after a write that was '
+                                                                    'given it; a fresh specification refuses it')
+            else:
+                src = filegen.make_source(follow, b.data, {'perm_seed': i, 'extra': 0, 'tmpdir': tmp, 'h5name': 'md.h5'})
+                s2, e2 = call(b.df.write, p, data=src, output_chunk_size=2**20)
+                if s2 != 'ok':
+                    chk.fail('history:write-data-remembered', case, f'after a write from a dict, a write from a {follow} source '
+                                                                    f'raises {e2}; a fresh specification writes it')
+                elif open(p, 'rb').read() != first:
+                    chk.fail('history:bytes-differ-after-other-source', case, f'the file written from the {follow} source differs')
         # (c) mutation after a write: origin references and names of referenced objects change, then rewrite
         from harness.filegen import Ref
         for i in range(15 if tier == 'quick' else 120):
